@@ -137,6 +137,20 @@ Proof.
   - apply N.leb_gt in E. rewrite zz_odd. split; lia.
 Qed.
 
+(* the two range hypotheses of T1 are not needed *)
+Lemma vlq_ints_encode_app (a b : N) (rest : text) :
+  (Z.abs (Z.of_N a - Z.of_N b) < 2 ^ 31)%Z ->
+  vlq_ints_aux (encode_vlq a b ++ rest) 0 1 false =
+  match vlq_ints_aux rest 0 1 false with
+  | Some r => Some ((Z.of_N a - Z.of_N b)%Z :: r)
+  | None => None
+  end.
+Proof.
+  intros H. destruct (zz_vlq_num a b H) as [Hz Hlt].
+  unfold encode_vlq. rewrite vlq_ints_digits by exact Hlt.
+  rewrite N.add_0_l, N.mul_1_r, Hz. reflexivity.
+Qed.
+
 (* T1, compositional form *)
 Theorem vlq_roundtrip_app (a b : N) (rest : text) :
   a < two32 -> b < two32 -> (Z.abs (Z.of_N a - Z.of_N b) < 2 ^ 31)%Z ->
@@ -145,11 +159,7 @@ Theorem vlq_roundtrip_app (a b : N) (rest : text) :
   | Some r => Some ((Z.of_N a - Z.of_N b)%Z :: r)
   | None => None
   end.
-Proof.
-  intros _ _ H. destruct (zz_vlq_num a b H) as [Hz Hlt].
-  unfold encode_vlq. rewrite vlq_ints_digits by exact Hlt.
-  rewrite N.add_0_l, N.mul_1_r, Hz. reflexivity.
-Qed.
+Proof. intros _ _ H. apply vlq_ints_encode_app. exact H. Qed.
 
 (* T1 *)
 Theorem vlq_roundtrip (a b : N) :
@@ -166,9 +176,9 @@ Proof.
   unfold encode_vlq, vlq_num. rewrite N.leb_refl, N.sub_diag. reflexivity.
 Qed.
 
-Lemma encode_vlq_succ a : a + 1 < two32 -> encode_vlq (a + 1) a = [67].
+Lemma encode_vlq_succ a : encode_vlq (a + 1) a = [67].
 Proof.
-  intros H. unfold encode_vlq, vlq_num.
+  unfold encode_vlq, vlq_num.
   assert (E : (a <=? a + 1) = true) by (apply N.leb_le; lia). rewrite E.
   replace (a + 1 - a) with 1 by lia. reflexivity.
 Qed.
